@@ -1,5 +1,6 @@
 CFG = {
-    "modules": ["Parsley.Props.C10", "Parsley.Props.C10Keys", "Parsley.Props.C10Full", "Parsley.Props.C10Rules", "Parsley.Props.C10Machine"],
+    "modules": ["Parsley.Props.C10", "Parsley.Props.C10Keys", "Parsley.Props.C10Full", "Parsley.Props.C10Rules", "Parsley.Props.C10Machine",
+                "Parsley.Props.C10Registered"],
     "theorems": [
         # structural theorems over the REGENERATED shipped specification (decide +kernel)
         "Parsley.C10.shipped_catalog_keys", "Parsley.C10.shipped_root_keys",
@@ -35,6 +36,9 @@ CFG = {
         "Parsley.C10.menu_closed", "Parsley.C10.S'_closed", "Parsley.C10.rendered_conforms",
         # C08e: the acceptance half for the MACHINE (code as it is), all documents (from C08 machine_complete)
         "Parsley.C10.shipped_wf", "Parsley.C10.machine_accepts_rendered", "Parsley.C10.machine_accepts_rendered_fuel",
+        # sweep follow-up (register deleted in new_refined / new_indirect): the names registered by the real catalog_type and the
+        # kind (predicate, indirect requirement) of the check found under each (Props/C10Registered.lean)
+        "Parsley.C10.shipped_registered_kinds",
     ],
     "partial": {
         "Parsley.C10.rendered_conforms_partial":
